@@ -13,7 +13,7 @@ set_option linter.unusedSectionVars false
 set_option linter.unusedSimpArgs false
 set_option linter.unusedVariables false
 
-namespace GT
+namespace GT.Act
 
 theorem insertIdx_length_append {β : Type} (i j : List β) (x : β) :
     (i ++ j).insertIdx i.length x = i ++ x :: j := by
@@ -737,4 +737,4 @@ theorem locate_spec (lens : List Nat) {m : Nat} (hm : m < lens.sum) :
       omega
 
 end ND
-end GT
+end GT.Act
